@@ -9,6 +9,8 @@ import (
 	"math/big"
 	"os"
 	"strings"
+
+	"github.com/bytemare/secp256k1"
 )
 
 type corpusEntry struct {
@@ -319,6 +321,138 @@ func (m *M) corpusGroup() {
 			m.ESet(2, 0)
 			m.EDouble(0)
 			m.EAdd(2, 2)
+		}
+	}
+}
+
+// rawWithStored: a projective representation (X, Y, Z), Z != 1, of a curve point whose STORED X is a and whose
+// stored 1/Z is b -- the affine conversion of the encoders multiplies exactly these two.  nil if there is none.
+func rawWithStored(a, b *big.Int) (X, Y, Z *big.Int) {
+	if a.Cmp(bigP) >= 0 || b.Cmp(bigP) >= 0 || b.Sign() == 0 {
+		return nil, nil, nil
+	}
+	X = mulmod(a, rInvP, bigP)
+	zinv := mulmod(b, rInvP, bigP)
+	if zinv.Sign() == 0 {
+		return nil, nil, nil
+	}
+	Z = new(big.Int).ModInverse(zinv, bigP)
+	x := mulmod(X, zinv, bigP) // affine x
+	g := new(big.Int).Exp(x, big.NewInt(3), bigP)
+	g.Add(g, big7).Mod(g, bigP)
+	y := new(big.Int).ModSqrt(g, bigP)
+	if y == nil {
+		return nil, nil, nil
+	}
+	return X, mulmod(y, Z, bigP), Z
+}
+
+// corpusLadder: the scalar-package entries that concern the scalar's way into Element.Multiply (its bit expansion
+// converts the stored form): full-width multiplications, so only the entries z3 had to solve for and a few more.
+func (m *M) corpusLadder() {
+	n, plain := 0, 0
+	for _, e := range loadCorpus("scalar") {
+		if e.Func != "FromMontgomery" {
+			continue
+		}
+		as := e.arrays()
+		if len(as) < 1 || as[0].Cmp(bigN) >= 0 {
+			continue
+		}
+		if !strings.HasPrefix(e.How, "z3") {
+			if plain >= 6 {
+				continue
+			}
+			plain++
+		}
+		m.reset()
+		n++
+		m.class("corpus:carry_sites")
+		m.EBase(0)
+		if n%2 == 0 {
+			m.EDouble(0)
+		}
+		m.SSetInt(0, mulmod(as[0], rInvN, bigN))
+		m.EMul(0, 0)
+	}
+}
+
+// corpusElements: the field-package entries of the carry-coverage corpus reached through the element API of
+// property prop (decoders: x^3 + 7 and y^2 of the input coordinates; encoders and Equal: products of a coordinate
+// with 1/Z or with the other operand's Z; Multiply: the first doubling / addition of the ladder).
+func (m *M) corpusElements(prop string) {
+	n := 0
+	for _, e := range loadCorpus("field") {
+		as := e.arrays()
+		if len(as) == 0 || (e.Func != "Mul" && e.Func != "Square" && e.Func != "Add" && e.Func != "Sub") {
+			continue
+		}
+		var encs [][]byte
+		for _, a := range as {
+			if p := encWithStoredX(a); p != nil {
+				encs = append(encs, p)
+			}
+			if p := encWithStoredY(a); p != nil {
+				encs = append(encs, p)
+			}
+		}
+		var rx, ry, rz *big.Int
+		if len(as) >= 2 && secp256k1.VerifAccessor {
+			rx, ry, rz = rawWithStored(as[0], as[1])
+		}
+		if len(encs) == 0 && rx == nil {
+			continue
+		}
+		if n%10 == 0 {
+			m.reset()
+		}
+		n++
+		m.class("corpus:carry_sites")
+		switch prop {
+		case "C03":
+			for _, enc := range encs {
+				m.EDecodeForm(0, "any", enc)
+				if len(enc) == 65 {
+					m.EDecodeCoords(1, enc[1:33], enc[33:])
+				} else {
+					m.EDecodeForm(1, "comp", enc)
+				}
+			}
+		case "C04":
+			if len(encs) > 0 {
+				m.EDecodeForm(0, "any", encs[0])
+				m.EEncode(0)
+				m.EEncodeUnc(0)
+			}
+			if rx != nil {
+				m.ESetRaw(1, rx, ry, rz)
+				m.EEncode(1)
+				m.EEncodeUnc(1)
+				m.EXCoord(1)
+			}
+		case "C05":
+			if len(encs) >= 2 {
+				m.EDecodeForm(0, "any", encs[0])
+				m.EDecodeForm(1, "any", encs[len(encs)-1])
+				m.EEqual(0, 1)
+				m.EEqual(1, 0)
+				m.EEqual(0, 0)
+			}
+			if rx != nil {
+				m.ESetRaw(2, rx, ry, rz)
+				m.ESet(3, 2)
+				m.ERescale(3, big.NewInt(int64(2+n%7)))
+				m.EEqual(2, 3)
+				m.EEqual(3, 2)
+				m.EIsIdentity(2)
+			}
+		case "C01":
+			if len(encs) == 0 {
+				continue
+			}
+			m.EDecodeForm(0, "any", encs[0])
+			m.SSetInt(0, big.NewInt(int64(2+n%3)))
+			m.EMul(0, 0)
 		}
 	}
 }
